@@ -142,7 +142,39 @@ def check_tree(root):
             return f'tree walk reports path {list(p)!r} but get_node raises {type(e).__name__}'
         if m is not n:
             return f'tree walk reports {n!r} at {list(p)!r} but get_node returns {m!r}'
+        # "a path converted to text and parsed back is unchanged" - for the paths the walk itself reports (their components are
+        # whatever the containers use as keys: plain ints / strs for trees built through the API, scalar NODES for parsed mappings)
+        comps = [k.ayns.native_value if isinstance(k, ConfigNode) else k for k in p]
+        if all((isinstance(k, int) and not isinstance(k, bool)) or (isinstance(k, str) and k.isidentifier()) for k in comps):
+            try:
+                text = str(p) if isinstance(p, NodePath) else NodePath.join_path(list(p))
+                back = [k.ayns.native_value if isinstance(k, ConfigNode) else k for k in NodePath.split_path(text)]
+            except Exception as e:  # noqa
+                return f'the path {comps!r} reported by the tree walk cannot be converted to text and back: {type(e).__name__}: {e}'
+            if [(type(k).__name__, k) for k in back] != [(type(k).__name__, k) for k in comps]:
+                return f'the path {comps!r} reported by the tree walk reads {text!r} as text, which parses back to {back!r}'
+            try:
+                m = root.ayns.get_node(text)
+            except Exception as e:  # noqa
+                return f'the path {comps!r} reported by the tree walk reads {text!r} as text, but get_node({text!r}) raises {type(e).__name__}'
+            if m is not n:
+                return f'the path {comps!r} reported by the tree walk reads {text!r} as text, but get_node({text!r}) returns another node'
     return None
+
+def parsed_twin(plain):
+    """the same data as a tree PARSED from YAML text (mapping keys become scalar nodes), without shared objects"""
+    import yaml as _pyyaml
+    from awesomeyaml.builder import Builder
+    def unshare(v):
+        if isinstance(v, dict): return {k: unshare(x) for k, x in v.items()}
+        if isinstance(v, list): return [unshare(x) for x in v]
+        return v
+    data = unshare(plain)
+    if not isinstance(data, dict):
+        data = {'r': data}
+    b = Builder()
+    b.add_source(_pyyaml.safe_dump(data, default_flow_style=True, width=100000), raw_yaml=True)
+    return b.build()
 
 class Tokens:
     """identity classes: objects are numbered in order of first appearance"""
@@ -214,6 +246,13 @@ def impl_run(case):
         t = dict.__getitem__(t, k) if isinstance(t, dict) else list.__getitem__(t, k)
     tok, eq = Tokens(), case_eq_table(case)
     viol = check_tree(root)
+    if viol is None:
+        try:
+            viol = check_tree(parsed_twin(plain))
+            if viol:
+                viol = 'the same tree parsed from YAML text: ' + viol
+        except Exception as e:  # noqa
+            viol = f'the same tree cannot be parsed from YAML text: {type(e).__name__}: {e}'
     base = frozenset(t.__dict__)
     init = observe(t, tok, eq, base)
     steps = []
